@@ -218,6 +218,30 @@ def r4(ctx, facts):
                 ok = any(any(nm.endswith(o) for o in OKS) for nm in names) or "pick_predicate" in names or (meth.startswith("helper:") and delegates)
                 r.instance("%s:predicate#%d" % (meth, n), ok, "a selection predicate does not consult is_enabled / is_alive / pick_predicate%s (a filtered-out or dead host could be named); it calls %s"
                            % (" nor the predicate it was handed" if meth.startswith("helper:") else "", sorted(x.split("::")[-1] for x in names)[:6]), b.stmt_span(s))
+                # polarity: a predicate that consults the host filter / liveness itself must not ACCEPT a node for which every
+                # such test came out false (`!is_alive(node)` names exactly the nodes the host filter rejected)
+                from ..util import dj_of
+                direct = [c for bb2, c in cb.calls() if bb2 in cb.live_blocks and any((c.name or "").endswith(o) for o in OKS)]
+                if direct:
+                    dj = dj_of(cb, facts)
+                    bad = None
+                    for bb2 in sorted(cb.live_blocks):
+                        for j2, s2 in enumerate(cb.stmts(bb2)):
+                            if not (s2[0] == "A" and s2[1][0] == 0 and not s2[1][1]):
+                                continue
+                            e = dj.expr_of_rvalue(s2[2])
+                            for stt in dj.states_before_stmt(bb2, j2):
+                                # the execution in which every host-filter / liveness test of this predicate says "no"
+                                if any(in_set(stt.get(("call", c.bb)), {1}) for c in direct):
+                                    continue
+                                hyp = dict(stt)
+                                for c in direct:
+                                    hyp[("call", c.bb)] = ("in", frozenset({0}))
+                                if dj.eval_in(hyp, e) == 1:
+                                    bad = s2
+                    r.instance("%s:predicate-accepts-only-enabled#%d" % (meth, n), bad is None,
+                               "a selection predicate answers true for a node on which is_enabled / is_alive came out false: nodes rejected by the host filter (they have no pool, "
+                               "so they are 'not alive') are named in the plan", cb.stmt_span(bad) if bad else cb.span)
     if n == 0:
         raise AnchorLost("no predicate closures found in pick/fallback")
     w = field_writers(facts, DP, ["pick_predicate"])
